@@ -209,7 +209,7 @@ func runC15(r *R) {
 	}
 	if outer := r.NeedFn("C15-R4", "(*"+wk+".remoteRunner).Kill"); outer != nil {
 		ok := false
-		for _, cl := range Closures(outer) {
+		for _, cl := range ClosuresAndGoBodies(outer) {
 			// loop exits: every return is guarded by isClosed() or the deadline test, and the deadline arm calls onUnkillable
 			closedRet, deadlineRet := false, false
 			for _, ret := range Returns(cl) {
